@@ -46,6 +46,7 @@ func runC17(p *Prog, r *Report) {
 	c17Outside(p, r)
 	targetOutsideRootBody(p, r, "D3-outside-root")
 	c17StatAnswers(p, r)
+	readDirListsResolvedNode(p, r, "D2-resolve")
 	c17DepthAsConfigured(p, r, "D1-variant")
 	c17StatKeepsResolverError(p, r, "D2-resolve")
 	r.Rule("D5-target-normalisation", "link targets are normalised with path.Clean/Join, never by trimming character sets")
